@@ -38,8 +38,14 @@ func genC06(seed uint64, tier string) *Plan {
 	p.Knobs["prune_backoff_s"] = float64(r.rng(2, 10))
 	p.Knobs["rsize"] = float64([]int{1, 10, 50, 100}[r.intn(4)])
 	p.Knobs["idw_threshold"] = 0
+	// one run in four under the lax no-sign policy: scripted peers send unsigned messages that still name their author
+	// (the strict no-sign policy would refuse the signed third-party and per-publish messages this check also uses)
+	p.SK["sign"] = []string{"strict", "strict", "strict", "laxnosign"}[r.intn(4)]
 	p.Knobs["seen_ttl_ms"] = 600000
 	p.Knobs["fanout_ttl_s"] = float64([]int{2, 3, 5, 60}[r.intn(4)])
+	if r.chance(0.1) {
+		p.Knobs["fanout_ttl_max"] = 1 // FanoutTTL = the largest duration: fanout state is never to expire
+	}
 	genDegrees(r, p, 5)
 	add := func(op string, a ...int64) { p.Items = append(p.Items, Item{Op: op, A: a}) }
 	if r.chance(0.75) {
@@ -449,6 +455,9 @@ func runC06(s *sim) {
 		})
 	}
 	fanoutTTL := time.Duration(p.ki("fanout_ttl_s", 60)) * time.Second
+	if p.kb("fanout_ttl_max") {
+		fanoutTTL = time.Duration(math.MaxInt64)
+	}
 	checkFanoutKept := func(post *snapshot, topic, op string) {
 		if gs == nil {
 			return
